@@ -52,8 +52,8 @@ def auto_theorems(modules):
     return out
 
 PROPS["C20"] = dict(
-    lean_modules=["LC.Props.C20Heap", "LC.Props.C20Sets", "LC.Props.C20SetsAlgebra"],
-    theorems=auto_theorems(["LC.Props.C20Heap", "LC.Props.C20Sets", "LC.Props.C20SetsAlgebra"]),
+    lean_modules=["LC.Props.C20Heap", "LC.Props.C20HeapSort", "LC.Props.C20Sets", "LC.Props.C20SetsAlgebra"],
+    theorems=auto_theorems(["LC.Props.C20Heap", "LC.Props.C20HeapSort", "LC.Props.C20Sets", "LC.Props.C20SetsAlgebra"]),
     runs=[
         dict(mod="root", pkg="stringclassifier/internal/pq", pkgname="pq",
              files=["overlay/pq/zz_verif_test.go"], run="^TestVerifC20$"),
